@@ -47,7 +47,18 @@ RULE = ("operation sequences (set_field, e[k]=v, pop, del e[k]; then a probe blo
         "entry, operation list) or (block, perturbation); non-trivial = at least one call replaces, removes or misses an "
         "existing key (several entries: a key whose Field object is also held by another entry), or the pair differs in "
         "exactly one attribute / is a copy; worlds: a new key is written to an entry while another entry built the same way is alive; odd streams: an operation addresses a key bound to an object of a Field subclass, or "
-        "the caller edits e.fields; edit streams: an edit was made after at least one lookup")
+        "the caller edits e.fields; edit streams: an edit was made after at least one lookup; "
+        "IDENTITY of arguments (ident-* streams, props/c19_ident.py): pop(k, d) / get(k, d) whose default d IS the Field "
+        "stored under k / under another key / in another entry / popped or replaced earlier, an equal copy of one of these, "
+        "the value object of one, None, a falsy value, a falsy / equal-to-everything / comparison-refusing Field object, the "
+        "entry itself, another entry, the list e.fields; set_field(f) with f already a field of this entry (every position, "
+        "after a rename by the caller), of another entry, popped earlier, an equal copy; e[k] = v with v a stored Field or a "
+        "stored value object; the same object in two calls in a row: every such call on a present and an absent key alone, "
+        "twice, once more after the key was removed in between, after three to six preparations and followed by a write "
+        "(thorough: every changing call followed by every call), eleven scripts around earlier results, "
+        "random programs to depth 18 over one to three entries (constructed, sharing Field objects, parsed); what each "
+        "argument was relative to the entry and key is read off the objects at run time (tags ident:...); non-trivial = an "
+        "argument coincided with (or equalled) something an entry held")
 TRUSTED = ["field identity is observed through unique start_line tags given to every Field the harness creates",
            "the several-entries streams have no counterpart in the Coq model (the model has no object identity across "
            "entries): they are judged by the Python oracle alone",
@@ -64,6 +75,10 @@ TRUSTED = ["field identity is observed through unique start_line tags given to e
            "(rename, value, exchange of keys) are run a second time on fresh objects and compared with Model/EntryObj.v",
            "entries with more than 300 fields (big-ops stream) and the big-multi stream are not sent to the Coq model (the "
            "extracted model needs seconds per such case): Python oracle alone",
+           "ident-* streams: defaults and values that are objects (Field objects, entries, lists) are beyond the values of "
+           "the Coq model: Python oracle alone (reference dict per entry, results compared by identity); programs made of "
+           "set_field of existing / new objects, renames and plain values are run a second time on fresh objects and "
+           "compared with Model/EntryObj.v (op 25)",
            "values containing dicts or foreign objects are outside the executable equality model (skipped for the model "
            "comparison, still checked by the Python oracle)"]
 ASSUMPTIONS = ["str keys; CPython dict preserves insertion order (the reference mapping of the oracle is a dict)"]
@@ -204,6 +219,11 @@ def generate(rng, tier):
     #     mapping operations, above all the length-preserving ones, then lookups / writes of the new and the old key
     from props import c19_edit
     cases += c19_edit.edit_cases(__import__("random").Random(rng.random()), tier)
+    # 11. arguments that ARE objects the entry already holds (the Field stored under the key / under another key / in
+    #     another entry / popped earlier, its value object, the entry itself, the object of the call before) and equal
+    #     copies of them, as the default of pop / get, the argument of set_field and the value of an item assignment
+    from props import c19_ident
+    cases += c19_ident.ident_cases(__import__("random").Random(rng.random()), tier, BIB)
     return cases
 
 
@@ -2077,6 +2097,9 @@ def obj_run(ents, objs, steps):
 
 
 def impl(case):
+    if "ident" in case["input"]:
+        from props import c19_ident
+        return c19_ident.impl_ident(case)
     if "edit" in case["input"]:
         from props import c19_edit
         return c19_edit.impl_edit(case)
@@ -2093,6 +2116,13 @@ def impl(case):
 
 def shrink(case):
     inp = case["input"]
+    if "ident" in inp:
+        # arguments are resolved at run time (selectors, ["result", j] modulo), so a program with a step left out is a case again
+        for i in range(len(inp["steps"])):
+            c = json.loads(json.dumps(case))
+            del c["input"]["steps"][i]
+            yield c
+        return
     if "ops" not in inp:
         return
     ops = inp["ops"]
